@@ -755,18 +755,27 @@ func (x *Exec) extTerms(idx []IdxT) []IdxT {
 			ext = append(ext, t)
 		}
 	}
-	n := 0
 	for _, t := range idx {
 		add(t)
-		if n < 10 && t.Seq != "" {
+	}
+	// neighbours (+-1) of short sequence terms only: loop counters and skolem witnesses
+	n := 0
+	for _, t := range idx {
+		if n < 8 && t.Seq != "" && len(t.T) < 120 && !strings.Contains(t.T, "ite") {
 			n++
 			add(IdxT{sSub(t.T, "1"), t.Seq})
 			add(IdxT{sAdd(t.T, "1"), t.Seq})
 		}
 	}
+	for _, t := range idx {
+		if t.Seq == "" && strings.HasPrefix(t.T, "sk.") {
+			seen[IdxT{sSub(t.T, "1"), ""}] = false
+			ext = append(ext, IdxT{sSub(t.T, "1"), ""}, IdxT{sAdd(t.T, "1"), ""})
+		}
+	}
 	add(IdxT{"0", ""})
-	if len(ext) > 60 {
-		ext = ext[:60]
+	if len(ext) > 200 {
+		ext = ext[:200]
 	}
 	return ext
 }
